@@ -340,6 +340,9 @@ class CoreMixin:
             if v.ty.args[0].kind == "unknown":
                 return smt.FALSE
             return smt.Gt(smt.Len(v.ts[0]), smt.Int(0))
+        if k == "dict" and v.ty.args[0].kind != "unknown":
+            ks = flatten(v.ty.args[0])[0]
+            return smt.Not(smt.Eq(v.ts[0], T("((as const %s) false)" % smt.arr(ks, BOOL), smt.arr(ks, BOOL))))
         if k == "tuple":
             return smt.Bool(len(v.ty.args) > 0)
         if k in ("ref", "cls"):
